@@ -137,6 +137,8 @@ def scan(state, groups, tid):
     al = math.sqrt(gl * par["pl"] / par["rl"]); ar = math.sqrt(gr * par["pr"] / par["rr"])
     guess = 2.0 * (max(abs(par["ul"]), abs(par["ur"])) + 2 * max(al, ar))
     st = structure(F, t, xd0, guess)
+    if len(st["plateaus"]) != 4:
+        st = structure(F, t, xd0, guess, n=24001)        # a star region narrower than 0.4 % of the window: look six times closer
     plats, edges = st["plateaus"], st["edges"]
     scale = st["scale"]
     cpar = {"gm1l": E.sl(gl - 1), "gm1r": E.sl(gr - 1), "gammal": E.sl(gl), "gammar": E.sl(gr)}
@@ -150,6 +152,12 @@ def scan(state, groups, tid):
         # and no structural verdict is drawn (counted in the evidence as pattern "near-vacuum")
         stats["evals"] = F.points
         stats["pattern"] = "near-vacuum"
+        return [], stats
+    if len(plats) in (2, 3) and all(e_[0] == "fan" for e_ in edges):
+        # two receding fans that (nearly) touch: a star region narrower than 0.07 % of the scanned window cannot be told from a
+        # point of a continuous profile by a scan; no structural verdict (pattern "fans-touch"; relations C07, C09, C10 still apply)
+        stats["evals"] = F.points
+        stats["pattern"] = "fans-touch"
         return [], stats
     if len(plats) != 4:
         # the grammar decides: emit the plateaus as anonymous regions
